@@ -140,8 +140,8 @@ def r2_exclusion(ctx, prog):
     # haveROSession / haveSession themselves: decided for every table content by R7 (representation-independent: iterator or index loops alike)
 
 
-def r3_lastclose(ctx, prog):
-    r = ctx.rule('C03.R3', 'the token is logged out exactly when its last session closes; close-all always logs out', floor=4, engine='E1+E3 finite-domain')
+def r3_lastclose(ctx, prog, rule_id='C03.R3'):
+    r = ctx.rule(rule_id, 'the token is logged out exactly when its last session closes; close-all always logs out', floor=4, engine='E1+E3 finite-domain')
     f = prog.fn('SessionManager::closeSession')
     ctx.analysed(f)
     hs = param_name(f, 0)
@@ -434,6 +434,8 @@ def run(ctx):
     r7_table_scans(ctx, prog)
     from rules import c14
     c14.r2_createtoken(ctx, prog, rule_id='C03.R8')
+    from rules import c11
+    c11.r5_predicates(ctx, prog, rule_id='C03.R9')
 
 
 MUTANTS = [
